@@ -2,6 +2,7 @@ package worlds
 
 import (
 	"fmt"
+	"math"
 	"strings"
 	"time"
 
@@ -107,6 +108,8 @@ func (m *sModel) String() string {
 	return "Level{" + strings.Join(p, ",") + "}"
 }
 
+func zsimProbe13() { zsim.Probe("huge_burst") }
+
 // genSampler draws a sampler composition and its model.
 func genSampler(c *zsim.Choices, depth int) (zerolog.Sampler, *sModel) {
 	k := c.Weighted(3, 5, 2)
@@ -116,9 +119,18 @@ func genSampler(c *zsim.Choices, depth int) (zerolog.Sampler, *sModel) {
 	switch k {
 	case 0:
 		n := []uint32{2, 0, 1, 3, 5, 8}[c.Intn(6)]
+		if c.Chance(1, 12) {
+			// "practically never again": the largest values of the field's type
+			n = []uint32{math.MaxUint32, 1 << 31, 1<<31 + 1}[c.Intn(3)]
+		}
 		return &zerolog.BasicSampler{N: n}, &sModel{kind: 0, n: n}
 	case 1:
 		b := uint32(c.Intn(5))
+		if c.Chance(1, 10) {
+			// "unlimited" burst: the largest values of the field's type
+			b = []uint32{math.MaxUint32, 1 << 31, 1<<31 + 1, math.MaxInt32}[c.Intn(4)]
+			zsimProbe13()
+		}
 		p := []int64{10, 0, 1, 1000}[c.Intn(4)]
 		s := &zerolog.BurstSampler{Burst: b, Period: time.Duration(p)}
 		m := &sModel{kind: 1, burst: b, period: p}
